@@ -625,28 +625,36 @@ import (
 	"github.com/olareg/olareg/internal/verifenv/vh"
 )
 
+func vhReplayOnce() (outcome string) {
+	outcome = "passed"
+	defer func() {
+		if r := recover(); r != nil {
+			switch r := r.(type) {
+			case vh.StopReplay:
+				if r.ID != "" {
+					outcome = "assert:" + r.ID
+				}
+			case vh.AssumeFailed:
+				outcome = "assume-failed"
+			default:
+				outcome = fmt.Sprintf("panic:%%v", r)
+			}
+		}
+	}()
+	%s()
+	return
+}
+
 func TestVHReplay(t *testing.T) {
 	if err := vh.LoadReplay(%q); err != nil {
 		t.Fatal(err)
 	}
-	outcome := "passed"
-	func() {
-		defer func() {
-			if r := recover(); r != nil {
-				switch r := r.(type) {
-				case vh.StopReplay:
-					if r.ID != "" {
-						outcome = "assert:" + r.ID
-					}
-				case vh.AssumeFailed:
-					outcome = "assume-failed"
-				default:
-					outcome = fmt.Sprintf("panic:%%v", r)
-				}
-			}
-		}()
-		%s()
-	}()
+	outcome := vhReplayOnce()
+	// map iteration order is random natively: repeat until the recorded order comes up
+	for n := 0; n < 200 && vh.OrderSensitive() && (outcome == "passed" || outcome[:5] == "panic"); n++ {
+		vh.Rewind()
+		outcome = vhReplayOnce()
+	}
 	fmt.Println("VHREPLAY outcome=" + outcome)
 	for _, n := range vh.Notes() {
 		fmt.Println("  note:", n)
@@ -710,7 +718,7 @@ func runReplay(overlay map[string][]byte, rf replayFile, replayPath, scratch str
 		}
 		repl[p] = f
 	}
-	testSrc := fmt.Sprintf(replayTestTmpl, pkgName, replayPath, rf.Harness)
+	testSrc := fmt.Sprintf(replayTestTmpl, pkgName, rf.Harness, replayPath)
 	tf := filepath.Join(ovDir, "zz_vh_replay_test.go")
 	os.WriteFile(tf, []byte(testSrc), 0o644)
 	repl[filepath.Join(pkgDir, "zz_vh_replay_test.go")] = tf
